@@ -43,6 +43,53 @@ type prog struct {
 	Leaf struct {
 		Pat string `json:"pat"`
 	} `json:"leaf"`
+	Members []member `json:"members"`
+	Via     string   `json:"via"`
+}
+type member struct {
+	Kind string `json:"kind"`
+	Attr string `json:"attr"`
+}
+
+func (m member) text() string {
+	switch m.Kind {
+	case "leafref":
+		return fmt.Sprintf("type leafref { path \"/a:tgt_%s\"; }", m.Attr)
+	case "bits":
+		return fmt.Sprintf("type bits { bit %s; }", m.Attr)
+	case "enumeration":
+		return fmt.Sprintf("type enumeration { enum %s; }", m.Attr)
+	case "int8":
+		return fmt.Sprintf("type int8 { range %q; }", m.Attr)
+	case "string":
+		if m.Attr == "" {
+			return "type string;"
+		}
+		return fmt.Sprintf("type string { pattern %q; }", m.Attr)
+	}
+	return "type " + m.Kind + ";"
+}
+
+// describe renders a resolved member the way member.text distinguishes them
+func describe(y *yang.YangType) string {
+	k := yang.TypeKindToName[y.Kind]
+	switch k {
+	case "leafref":
+		return k + ":" + strings.TrimPrefix(y.Path, "/a:tgt_")
+	case "bits":
+		if y.Bit != nil {
+			return k + ":" + strings.Join(y.Bit.Names(), ",")
+		}
+	case "enumeration":
+		if y.Enum != nil {
+			return k + ":" + strings.Join(y.Enum.Names(), ",")
+		}
+	case "int8":
+		return k + ":" + y.Range.String()
+	case "string":
+		return k + ":" + strings.Join(y.Pattern, ",")
+	}
+	return k + ":"
 }
 type rtype struct {
 	Kind  string   `json:"kind"`
@@ -50,7 +97,8 @@ type rtype struct {
 	Units string   `json:"units"`
 	Dflt  string   `json:"dflt"`
 	Pats  []string `json:"pats"`
-	Bound string   `json:"bound"`
+	Bound   string   `json:"bound"`
+	Members []member `json:"members"`
 }
 type cas struct {
 	Prog prog            `json:"prog"`
@@ -85,6 +133,20 @@ func (p *prog) leafAt(site string) string {
 	if p.Site != site {
 		return ""
 	}
+	if len(p.Members) > 0 {
+		var ms []string
+		for _, m := range p.Members {
+			ms = append(ms, m.text())
+		}
+		u := "type union { " + strings.Join(ms, " ") + " }"
+		switch p.Via {
+		case "typedef":
+			return fmt.Sprintf("typedef tu { %s } leaf %s { type tu; }", u, site)
+		case "typedef2":
+			return fmt.Sprintf("typedef tu { %s } typedef tu2 { type tu; units \"uu\"; } leaf %s { type tu2; }", u, site)
+		}
+		return fmt.Sprintf("leaf %s { %s }", site, u)
+	}
 	if p.Leaf.Pat != "" {
 		// a sibling of the same type with a pattern of its own: restrictions added at one
 		// use of a typedef must not show at another
@@ -95,16 +157,18 @@ func (p *prog) leafAt(site string) string {
 
 // texts renders the fixed skeleton of scopes with the program's typedefs and leaf.
 func (p *prog) texts() map[string]string {
-	a := "module a { namespace \"urn:a\"; prefix a; import b { prefix b; } include as;\n " + p.tdsAt("A0") +
+	// module y declares the prefix "b" for itself and is imported (as yy) before b: a reference b:t must not end up there
+	a := "module a { namespace \"urn:a\"; prefix a; import y { prefix yy; } import b { prefix b; } include as;\n leaf tgt_p1 { type string; } leaf tgt_p2 { type string; }\n " + p.tdsAt("A0") +
 		"\n container c { " + p.tdsAt("C1") + " " + p.leafAt("lc") + " container d { " + p.tdsAt("D2") + " " + p.leafAt("ld") + " } }" +
 		"\n list li { key k; leaf k { type string; } " + p.tdsAt("L1") + " " + p.leafAt("ll") + " }" +
 		"\n grouping g { " + p.tdsAt("G1") + " " + p.leafAt("lg") + " } container u { uses g; }" +
 		"\n rpc r { " + p.tdsAt("R1") + " input { " + p.tdsAt("I2") + " " + p.leafAt("li") + " } output { " + p.tdsAt("O2") + " " + p.leafAt("lo") + " } }" +
 		"\n notification n { " + p.tdsAt("N1") + " " + p.leafAt("ln") + " }\n " + p.leafAt("ltop") + "\n}\n"
-	as := "submodule as { belongs-to a { prefix a; } import b { prefix b; }\n " + p.tdsAt("S0") + " " + p.leafAt("ls") + "\n}\n"
+	as := "submodule as { belongs-to a { prefix a; } import y { prefix yy; } import b { prefix b; }\n " + p.tdsAt("S0") + " " + p.leafAt("ls") + "\n}\n"
 	b := "module b { namespace \"urn:b\"; prefix b; include bs;\n " + p.tdsAt("B0") + "\n}\n"
 	bs := "submodule bs { belongs-to b { prefix b; }\n " + p.tdsAt("BS0") + "\n}\n"
-	return map[string]string{"a": a, "as": as, "b": b, "bs": bs}
+	y := "module y { namespace \"urn:y\"; prefix b;\n typedef t { type string; units \"DECOY-Y\"; } typedef u { type string; units \"DECOY-Y\"; }\n}\n"
+	return map[string]string{"a": a, "as": as, "b": b, "bs": bs, "y": y}
 }
 
 func find(e *yang.Entry, name string) *yang.Entry {
@@ -175,13 +239,13 @@ func exec(kind byte, body []byte) *core.Verdict {
 	}
 	v := &core.Verdict{OK: true, Class: classOf(&c), NT: len(c.Prog.Tds) >= 2}
 	t := c.Prog.texts()
-	text := t["a"] + t["as"] + t["b"] + t["bs"]
+	text := t["a"] + t["as"] + t["b"] + t["bs"] + t["y"]
 	fail := func(sig, f string, a ...any) *core.Verdict {
 		v.OK, v.Sig, v.Detail = false, sig, fmt.Sprintf(f, a...)+"\n"+text
 		return v
 	}
 	ms := yang.NewModules()
-	for _, n := range []string{"a", "as", "b", "bs"} {
+	for _, n := range []string{"a", "as", "b", "bs", "y"} {
 		if err := ms.Parse(t[n], n+".yang"); err != nil {
 			return &core.Verdict{Infra: "rendered skeleton does not parse: " + err.Error() + "\n" + t[n]}
 		}
@@ -206,10 +270,10 @@ func exec(kind byte, body []byte) *core.Verdict {
 	if got := yang.TypeKindToName[y.Kind]; got != want.Kind {
 		return fail("kind-differs", "specification %s, library %s", want.Kind, got)
 	}
-	if y.Name != want.Name {
+	if y.Name != want.Name && len(c.Prog.Members) == 0 {
 		return fail("name-differs", "specification %s, library %s", want.Name, y.Name)
 	}
-	if y.Units != want.Units {
+	if y.Units != want.Units && len(c.Prog.Members) == 0 {
 		return fail("units-differ", "specification %q (the typedef bound is the one at %s), library %q", want.Units, want.Bound, y.Units)
 	}
 	if y.Default != want.Dflt || y.HasDefault != (want.Dflt != "") {
@@ -217,6 +281,18 @@ func exec(kind byte, body []byte) *core.Verdict {
 	}
 	if dv := l.DefaultValues(); (want.Dflt == "") != (len(dv) == 0) || (len(dv) == 1 && dv[0] != want.Dflt) {
 		return fail("default-values-differ", "specification %q, DefaultValues() %v", want.Dflt, dv)
+	}
+	if want.Kind == "union" {
+		var g, w []string
+		for _, m := range y.Type {
+			g = append(g, describe(m))
+		}
+		for _, m := range want.Members {
+			w = append(w, m.Kind+":"+m.Attr)
+		}
+		if strings.Join(g, " | ") != strings.Join(w, " | ") {
+			return fail("union-members-differ", "specification [%s], library [%s]", strings.Join(w, " | "), strings.Join(g, " | "))
+		}
 	}
 	if want.Kind == "string" {
 		if g, w := strings.Join(y.Pattern, "|"), strings.Join(want.Pats, "|"); g != w {
@@ -245,9 +321,9 @@ func check(r *core.Run) {
 	r.Rule = "A: a fixed skeleton of 12 typedef scopes (module, container, nested container, list, grouping used elsewhere, rpc, input, output, notification, submodule, imported module, its submodule); binding space: every set of up to 3 typedefs named t (each with its own units) x 9 reference sites x 3 spellings (t, own prefix, foreign prefix); chain space: leaf -> t -> u -> v -> string with t and u placed at several scopes and modules, bases spelled unprefixed / own-prefixed / foreign, self reference and two-cycle, unknown base, int32 base, units / default / pattern at every level (shared pattern = duplicate); the machine of Types.tla binds and follows the chain one typedef per step, TLC checks Lexical / ForeignExact / NoRepeat; every case is resolved by Process and Entry.Type (kind, name, units, default, DefaultValues(), patterns) compared. Non-trivial = at least two typedefs."
 	r.Exhaustive = true
 	r.Assumptions = []string{"re-listing a subset of enum / bit members is outside the claim", "a submodule sees its owner's top level and the owner's other submodules (RFC 7950 5.1)"}
-	cfgs := []string{"bind", "chain_quick"}
+	cfgs := []string{"bind", "chain_quick", "union"}
 	if r.Tier == "thorough" {
-		cfgs = []string{"bind", "chain"}
+		cfgs = []string{"bind", "chain", "union"}
 	}
 	for _, c := range cfgs {
 		r.DirectionA("types", core.TLCOpts{Module: "MCT_" + c, Cfg: "MCT_" + c + ".cfg", Workers: 12, Timeout: 0}, nil)
